@@ -518,6 +518,12 @@ class Obs:
         self.fails.append((site, cls, str(detail)[:400], field))
 
 
+def no_pandas_index(i):
+    """IDs a pandas index cannot show: a tuple becomes a MultiIndex level, an int beyond the float range makes
+    pd.Series({10**309: 1.0, 0: 2.0}) itself raise OverflowError (pandas is an oracle here)"""
+    return isinstance(i, tuple) or (isinstance(i, int) and not isinstance(i, bool) and abs(i) >= 2 ** 1023)
+
+
 def same_vals(a, b):
     """stat values equal (floats by the float rule; NaN never appears)"""
     if isinstance(a, float) or isinstance(b, float):
@@ -583,7 +589,7 @@ def stat_forms(ob, stat, view_ids, expected, kind, cname, field, pandas=True):
         else:
             out["asnumpy"] = "$skip"
     # aspandas (pandas turns tuple keys into a MultiIndex: tuple IDs are outside what a Series index shows)
-    if not pandas or any(isinstance(i, tuple) for i in view_ids):
+    if not pandas or any(no_pandas_index(i) for i in view_ids):
         out["aspandas"] = "$skip"
         return out
     st, s = attempt(stat.aspandas)
@@ -775,7 +781,7 @@ def other_stat_forms(ob, hstat, fstat, view, ids, nm, field="other_stats"):
     st, a = call(hstat.asnumpy)
     if st != "ok" or not isinstance(a, np.ndarray) or a.shape != (len(ids),) or not same(a.tolist()):
         ob.fail("IDStat.asnumpy", "differs-from-aslist", f"{nm}: asnumpy {st} {a!r} asdict {dh}"[:400], field)
-    if not any(isinstance(i, tuple) for i in ids):
+    if not any(no_pandas_index(i) for i in ids):
         st, sr = call(hstat.aspandas)
         if st != "ok" or not hasattr(sr, "index") or sr.index.tolist() != ids or not same(sr.tolist()):
             ob.fail("IDStat.aspandas", "values-differ-from-asdict" if st == "ok" and hasattr(sr, "index") and sr.index.tolist() == ids else "index-not-view-order",
@@ -884,7 +890,7 @@ def multi_forms(ob, multi, singles, keys, kinds, view_ids, field, pandas=True):
         out["asnumpy"] = ([enc_row(r) for r in al] if numeric and not bad else ("$skip" if not bad else "err:differs"))
     else:
         out["asnumpy"] = "$skip"
-    if not pandas or any(isinstance(i, tuple) for i in view_ids):
+    if not pandas or any(no_pandas_index(i) for i in view_ids):
         out["aspandas"] = "$skip"
         return out
     st, df = attempt(multi.aspandas)
@@ -1173,6 +1179,41 @@ def observe(held, T, sp, prev_order=None, op=None, step_no=0):
                                            pandas=(not key.endswith("2") or step_no % 3 == 0)))
 
     # ---- filtered views created now from the held views
+    def restricted_queries(fv, exp, key, k_, vn, other):
+        inview = set(exp)
+
+        def ask(name, cls, f, definition):
+            want = [i for i in exp if i in set(definition)]
+            st, r = attempt(lambda: list(f()))
+            if st != "ok":
+                ob.fail(f"{vn}.{name}", "restricted-view-raises" + cls, f"view {exp}: {st} {r}"[:300], key)
+            elif not set(r) <= inview:
+                ob.fail(f"{vn}.{name}", "restricted-view-answers-outside-the-view" + cls,
+                        f"asked of the view {exp}: {r} - {[i for i in r if i not in inview]} are not in the view (definition within the view: {want})"[:400], key)
+            elif r != want:
+                ob.fail(f"{vn}.{name}", "restricted-view-differs-from-definition" + cls, f"asked of the view {exp}: {r}, definition gives {want}"[:300], key)
+        tab = T.tab(k_)
+        # lookup: the sought set of the step, the neighbours of an ID outside the view, of the first ID inside it
+        soughts = [[tuple(b) if isinstance(b, list) else b for b in sp["nlookup" if k_ == "n" else "elookup"]]]
+        soughts += [list(tab[i]) for i in ([other] if other is not None else []) + list(exp[:1])]
+        for sought in soughts:
+            ask("lookup", "", lambda: fv.lookup(sought), [i for i in T.keys(k_) if tab[i] == set(sought)])
+        # duplicates: the representative the library keeps per class is the full view's (checked in lookups())
+        st, full = attempt(lambda: list((held.nv if k_ == "n" else held.ev).duplicates()))
+        if st == "ok":
+            ask("duplicates", "", fv.duplicates, full)
+        if k_ == "n":
+            ask("isolates", "", fv.isolates, [n for n in T.nodes if not T.memb[n]])
+            if not directed:
+                ask("isolates", "-ignore-singletons", lambda: fv.isolates(ignore_singletons=True),
+                    [n for n in T.nodes if all(len(T.mem[e]) == 1 for e in T.memb[n])])
+        else:
+            ask("empty", "", fv.empty, [e for e in T.edges if not T.mem[e]])
+            if not directed:
+                ask("singletons", "", fv.singletons, [e for e in T.edges if len(T.mem[e]) == 1])
+                ask("maximal", "", fv.maximal, maximal_def(T, False))
+                ask("maximal", "-strict", lambda: fv.maximal(strict=True), maximal_def(T, True))
+
     def filtered_views():
         for key, view, ids, bunch_key, stats_f, tstats, vn in (("nview", held.nv, T.nodes, "nbunch", node_stats, tn, nvn),
                                                                 ("eview", held.ev, T.edges, "ebunch", edge_stats, te, evn)):
@@ -1243,6 +1284,11 @@ def observe(held, T, sp, prev_order=None, op=None, step_no=0):
                 for s_ in (1, sp["sp"]):
                     view_ids_obs(ob, f"{vn}.neighbors", "filtered-view-differs-from-definition", lambda: fv.neighbors(i, s_),
                                  nbrs(T, k_, i, s_), key, as_set=True)
+            # (4) the set-valued queries asked of the RESTRICTED view.  Their definitions quantify over the network
+            # ("no other edge of the hypergraph", "another ID with the same bipartite neighbors", "belongs to no edge"),
+            # the answer is a view of THIS view: exactly its IDs that satisfy the definition, in its order — what
+            # filterby / isolates() / singletons() / empty() return.  An ID outside the view is wrong under any reading.
+            restricted_queries(fv, exp, key, k_, vn, other)
             fs = stats_f(fv, P, directed)
             names = list(fs)
             pd_for = names[step_no % len(names)]          # pandas output of one (rotating) stat per filtered view
